@@ -34,11 +34,33 @@ def decode_def(N, p, payload_le):
 _SAMPLE_CACHE = {}
 
 
-def header_samples(N):
+def header_samples(N, every=False):
     """(pgn definition, payload) for: PDU1 single, PDU2 single, PDU1 fast, PDU2 fast — encodable ones,
-    found by running the plain code on concrete payloads"""
-    if "s" in _SAMPLE_CACHE:
-        return _SAMPLE_CACHE["s"]
+    found by running the plain code on concrete payloads; every=True: one sample for every encodable definition"""
+    key = "all" if every else "s"
+    if key in _SAMPLE_CACHE:
+        return _SAMPLE_CACHE[key]
+    if every:
+        from .plain import plain
+        PN = plain()
+        enc = PN.encoder.NMEA2000Encoder()
+        out = []
+        for p in db().pgns:
+            if p.type not in ("Single", "Fast"):
+                continue
+            for fill in (0, 1):
+                try:
+                    pl = match_payload(p, fill)
+                    m = decode_def(PN, p, pl)
+                    m.add_data(1, 2, 3, TS, None, False, b"")
+                    b = enc._call_encode_function(m)
+                    if len(b) > 0:
+                        out.append((p, pl))
+                        break
+                except Exception:
+                    continue
+        _SAMPLE_CACHE[key] = out
+        return out
     from .plain import plain
     PN = plain()
     want = {}
